@@ -1970,7 +1970,24 @@ func (g *c02GenState) ops(n int, depth int) []Sx {
 			}
 			ops = append(ops, L(A(6), L(ks...)))
 		case c < 86:
-			ops = append(ops, c02Commit(r, interval, g.okp)...)
+			seq := c02Commit(r, interval, g.okp)
+			if r.Chance(30) {
+				// a busy commit: complete uploads land WHILE the data sync is in flight
+				// (between the put loop's timer and the DataSyncer's answer); large ones
+				// rotate the block list under the running sync
+				burst := []Sx{}
+				for j := 1 + r.Intn(4); j > 0; j-- {
+					k, v := g.pickKV()
+					burst = append(burst, L(A(1), AI(k), AI(v)))
+				}
+				for i, o := range seq {
+					if o.Nth(0).Z == 8 && o.Nth(1).Z == 1 {
+						seq = append(append(append([]Sx{}, seq[:i+1]...), burst...), seq[i+1:]...)
+						break
+					}
+				}
+			}
+			ops = append(ops, seq...)
 		case c < 93:
 			// a release-loop state write (or whatever write is pending)
 			ops = append(ops, L(A(10), A(6), A(-1)))
